@@ -21,6 +21,7 @@ type Scratch struct {
 	Helpers    string // instrumented copy of the runtime module
 	Sim        string // copy of /verif/sim
 	Worker     string // engine-1 worker binary
+	WorkerRace bool   // the worker is a race-detector build (the tree starts goroutines of its own)
 	Pristine   string // uninstrumented copy of internal/gontainer (the self-configuration and its checked-in output)
 	PristineTree string // uninstrumented copy of the whole working tree (the real binary is built from it on demand)
 	RepoRep    *instr.Report
@@ -139,7 +140,12 @@ func Base(repo string) (*Scratch, error) {
 
 // Buildsim prepares engine 1: T1+T2 on the working tree, T1 on the runtime module, harness
 // main added to package main, worker binary built.
-func Buildsim(repo string) (*Scratch, error) {
+func Buildsim(repo string) (*Scratch, error) { return BuildsimOpt(repo, false) }
+
+// BuildsimOpt: with raceIfConcurrent the worker is a race-detector build when the tree contains go
+// statements (used by C12: unsynchronised concurrency in the build process is a fault waiting to
+// happen; the other checks keep the plain build, whose timing is the realistic one).
+func BuildsimOpt(repo string, raceIfConcurrent bool) (*Scratch, error) {
 	t0 := time.Now()
 	s, err := Base(repo)
 	if err != nil {
@@ -172,7 +178,15 @@ func main() {
 		return s, err
 	}
 	s.Worker = filepath.Join(s.Dir, "worker")
-	if _, err := run(s.Repo, GoEnv(), "go", "build", "-o", s.Worker, "."); err != nil {
+	args := []string{"build", "-o", s.Worker}
+	if raceIfConcurrent && len(s.RepoRep.GoStmts) > 0 {
+		// the build process has concurrency of its own, which the simulator does not schedule: at
+		// least let the race detector watch it
+		args = append(args, "-race")
+		s.WorkerRace = true
+	}
+	args = append(args, ".")
+	if _, err := run(s.Repo, GoEnv(), "go", args...); err != nil {
 		return s, fmt.Errorf("building instrumented worker: %w", err)
 	}
 	s.BuildS = time.Since(t0).Seconds()
